@@ -1231,7 +1231,7 @@ def op_vset(st, o):
         val = m.copy() if as_ == "bool" else (m.astype(int) if as_ == "int" else m.tolist())
         want = m
     elif how["t"] == "const":
-        val, want = how["v"], np.full(mm.n, bool(how["v"]))
+        val, want = (np.bool_(how["v"]) if how.get("np") else how["v"]), np.full(mm.n, bool(how["v"]))  # np.bool_: what np.all(...) returns
     elif how["t"] == "fn":
         m = make_array(dict(how["a"], shape=list(mm.n)))
         f = CellFn(mm, m[..., None], scalar_ok=True)
